@@ -184,6 +184,8 @@ class Impl:
             return "ok " + hx(self.sessions[int(ws[1])].start())
         if op == "finish":
             return "ok " + hx(self.sessions[int(ws[1])].finish(unhx(ws[2])))
+        if op == "finishstr":     # a text string instead of bytes (caller bug): must fail AND use the instance up
+            return "ok " + hx(self.sessions[int(ws[1])].finish(unhx(ws[2]).decode("latin-1")))
         if op == "finishba":      # the same message delivered as a bytearray (e.g. filled by recv_into)
             return "ok " + hx(self.sessions[int(ws[1])].finish(bytearray(unhx(ws[2]))))
         if op == "ser":
